@@ -6,7 +6,7 @@
    vietorisRipsComplex / Filtration.copy freshness, follow-up mutation scripts. *)
 From Coq Require Import String ZArith Bool Arith List.
 From SV Require Import Names NamesFacts ListFacts Rep Fresh Complex Atomic RepInv Reach Homology Filtration Gen World WorldProofs Shapes CopyFaithful CopyAttrs.
-From SV Require Closed Listing.
+From SV Require Closed Listing VInv VIso.
 
 Theorem C09_copy_is_fresh :
   forall hp src uid hp' r' x, copy_new hp src uid = (hp', r', x) ->
@@ -67,3 +67,11 @@ Theorem C09_copy_lists_in_the_same_order :
   forall j, simplicesOfOrder c j = simplicesOfOrder src j.
 Proof. exact Listing.copy_listing_per_order. Qed.
 Print Assumptions C09_copy_lists_in_the_same_order.
+
+(* the copy of a complex that meets the vertex-set reading (C01) meets it, and every simplex of the copy
+   has the points it has in the source *)
+Theorem C09_copy_keeps_the_vertex_set_reading :
+  forall hp src uid hp' c, VInv.vinv src -> copy_new hp (view_of src) uid = (hp', c, Ok tt) ->
+  VInv.vinv c /\ forall s, containsSimplex c s = true -> VInv.sameset (basisOf c s) (basisOf src s).
+Proof. exact VIso.copy_vinv. Qed.
+Print Assumptions C09_copy_keeps_the_vertex_set_reading.
